@@ -336,14 +336,14 @@ theorem handed_chunk {mf' : Bytes → List Bytes → Bytes} {cfg : SCfg} {kvs : 
     (handed_inv (pkeys_inv mf' _ stableSrt_oracle) pkeys_init h) hc
 
 /-- A chunk with the facts above is an admissible writer input as soon as the inserted keys and
-    the outputs of the merge function are shorter than `2^32` and fewer than `2^64` pairs were
-    inserted. -/
+    the (merged) values it holds are shorter than `2^32` and fewer than `2^64` pairs were inserted.
+    (The bound on the values is a hypothesis on the outputs of the merge function; it cannot be
+    asked of ALL outputs of a lawful merge function, since `mf' k [v] = v`.) -/
 theorem chunk_sizes {mf' : Bytes → List Bytes → Bytes} {c kvs : List Entry}
     (h : StrictAsc c ∧ (∃ S, c = G mf' S) ∧ ∀ k, k ∈ c.map (·.1) → k ∈ kvs.map (·.1))
-    (hk : ∀ kv ∈ kvs, kv.1.length < 2 ^ 32) (hv : ∀ k vs, (mf' k vs).length < 2 ^ 32)
-    (hn : kvs.length < 2 ^ 64) : SizesOk c := by
-  obtain ⟨hasc, ⟨S, rfl⟩, hsub⟩ := h
-  exact sizes_of_keys hasc hsub hk (G_val_lens hv S) hn
+    (hk : ∀ kv ∈ kvs, kv.1.length < 2 ^ 32) (hv : ∀ e ∈ c, e.2.length < 2 ^ 32)
+    (hn : kvs.length < 2 ^ 64) : SizesOk c :=
+  sizes_of_keys h.1 h.2.2 hk hv hn
 
 /-! ### D. `finish` = `finishChunks` + final merge; inserts-then-finish = `program` + final merge -/
 
